@@ -1,5 +1,6 @@
-// Harness for the properties that need the REAL arc process (L2): C05 (WAL crash
-// recovery), C04 (no payload crashes the server), C07 (backpressure / outages).
+// Harness for the sqlsec area: C14 (a query can only read data the caller is
+// authorized to read) and C15 (SQL normalisation agrees with DuckDB's lexer and
+// is reversible).
 package main
 
 import (
@@ -15,10 +16,10 @@ func main() {
 	flag.String("replay", "", "replay file")
 	flag.Parse()
 	switch *prop {
-	case "C05":
-		vlib.Main("C05", "fault_enumeration", checkC05)
-	case "C04":
-		vlib.Main("C04", "exploration", checkC04)
+	case "C14":
+		vlib.Main("C14", "exploration", checkC14)
+	case "C15":
+		vlib.Main("C15", "exploration", checkC15)
 	default:
 		fmt.Println("unknown property", *prop)
 		os.Exit(2)
